@@ -1108,6 +1108,8 @@ package fs
 //@   ensures 0 <= n && n <= len(b)
 //@   ensures n > 0 ==> off >= 0 && off + n <= fsize[e.privateFile]
 //@   ensures n < len(b) ==> err != nil
+//@   ensures[C10] forall y, i {at(e.encryptedRegions, y).start, decsec[i]} :: base(e.encryptedRegions) <= y && y < end(e.encryptedRegions) && at(e.encryptedRegions, y).start <= i && i < at(e.encryptedRegions, y).end && off <= 2048 * i && 2048 * i + 2048 <= off + n ==> decsec[i] > old(decsec[i]) @every-encrypted-sector-lying-inside-the-bytes-returned-is-decrypted
+//@   ensures[C10] forall y, i {at(e.encryptedRegions, y).start, decsec[i]} :: base(e.encryptedRegions) <= y && y < end(e.encryptedRegions) && at(e.encryptedRegions, y).start <= i && i < at(e.encryptedRegions, y).end && n > 0 && 2048 * i < off + n && off < 2048 * i + 2048 ==> decsec[i] > old(decsec[i]) @every-encrypted-sector-touched-by-the-bytes-returned-is-decrypted
 
 //@ func EncryptedISO.Read results(n, err)
 //@   tags C04,C10,C02
@@ -1116,6 +1118,8 @@ package fs
 //@   ensures iofaults >= old(iofaults) && encSynced(e)
 //@   ensures 0 <= n && n <= len(b) && fpos[e.privateFile] == old(fpos[e.privateFile]) + n
 //@   ensures n == 0 && len(b) > 0 ==> err != nil
+//@   ensures[C10] forall y, i {at(e.encryptedRegions, y).start, decsec[i]} :: base(e.encryptedRegions) <= y && y < end(e.encryptedRegions) && at(e.encryptedRegions, y).start <= i && i < at(e.encryptedRegions, y).end && old(e.offset) <= 2048 * i && 2048 * i + 2048 <= old(e.offset) + n ==> decsec[i] > old(decsec[i]) @every-encrypted-sector-lying-inside-the-bytes-returned-is-decrypted
+//@   ensures[C10] forall y, i {at(e.encryptedRegions, y).start, decsec[i]} :: base(e.encryptedRegions) <= y && y < end(e.encryptedRegions) && at(e.encryptedRegions, y).start <= i && i < at(e.encryptedRegions, y).end && n > 0 && 2048 * i < old(e.offset) + n && old(e.offset) < 2048 * i + 2048 ==> decsec[i] > old(decsec[i]) @every-encrypted-sector-touched-by-the-bytes-returned-is-decrypted
 
 //@ func EncryptedISO.Seek results(pos, err)
 //@   tags C04,C10
